@@ -67,6 +67,9 @@ pub async fn run_swarm_worker(
     // Periodically update peer_valid_until
     TimerActionRepeat::repeat(enclose!((peer_valid_until) move || {
         enclose!((peer_valid_until) move || async move {
+            #[cfg(aquatic_verif)]
+            aquatic_common::verif::count("http.time_refreshed");
+
             if let Some(valid_until) = ValidUntil::new(server_start_instant, max_peer_age) {
                 *peer_valid_until.borrow_mut() = valid_until;
             } else {
